@@ -62,7 +62,7 @@ def _post(testname):
         if np.any(np.isnan(h)):
             kind = "nan_history"
             if testname in ("alpha_mart", "wald_sprt") and math.isfinite(N) and k.get("rtol", None) == 0:
-                # mechanism of open finding KF-29 (DESIGN 7.2 #29): a 0/0 factor where mu_j == u exactly and x_j == u is
+                # mechanism of defect #29 (DESIGN 7.2; repaired by b32f485, recorded first as known finding KF-29): a 0/0 factor where mu_j == u exactly and x_j == u is
                 # masked at its own index, but the cumulative product carries the NaN on; with the caller's rtol = 0 the
                 # following indices (mu within rounding of u, not equal) are not masked
                 S_ = np.insert(np.cumsum(x), 0, 0)[0:-1]
@@ -116,8 +116,8 @@ def run_shard(spec, rec):
         return
     rng = random.Random(f"c11-{spec['seed']}-{spec['shard']}")
     if spec["shard"] == 0:
-        # the pinned witness of open finding KF-29 (so that every run observes it and reports it as KNOWN-FINDING)
-        rec.count("pinned_witness_of_open_finding_KF-29")
+        # the witness of defect #29 (repaired by b32f485), kept as a pinned regression case
+        rec.count("pinned_witness_of_defect_29")
         run_case({"cfg": {"test": "wald_sprt", "estim": None, "bet": None, "u": 0.8333333333333334, "N": 6, "t": 0.625,
                           "random_order": True, "kw": {}, "default_eta": True},
                   "x": [0.625, 0.0, 0.625, 0.8333333333333334, 0.625, 0.625], "stratum": "pinned:KF-29",
